@@ -160,9 +160,29 @@ PENDING = "check not built yet (planned, see DESIGN.md section 5)"
 ALL = [f"C{n:02d}" for n in range(1, 21)]
 
 
+EXTRA = {
+    "C01": " Also: 15 typed helpers, falsy message ids, calls with a progress callback (token taken from the wire), and a write stream whose transport stalls past the timeout.",
+    "C03": " Also run through the real stdio_client_with_initialize on a FakeProcess (batching mode probed behaviourally), with back-pressure on the write stream, a write channel that breaks after the request, an unrelated concurrent handshake in the same process, and reconnect histories over one StdioClient object.",
+    "C04": " Responses may sit in an outbound queue while other handshakes are handled (aliasing between answers is visible).",
+    "C05": " Also: bursts of > 100 lines in one read, legacy per-request streams (open or abandoned), the child exiting with unread output, and an earlier session over the same client object that ended mid-line.",
+    "C06": " Also: frames over 64 KiB, server batches rejected concurrently with the writer (two tasks writing to stdin), values the fast JSON backend refuses (stdlib fallback path).",
+    "C08": " Handler faults include text-less and unprintable exceptions.",
+    "C11": " SSE encodings include data-less typed events and raw U+2028/2029/0085 in payloads.",
+    "C12": " Also: server requests reusing a client id, the response event followed by a failing POST, and a systematic product establishment x exit path x instant x answer mode.",
+    "C13": " Also: counter-proposal handshakes, legacy per-request streams, a saturated outgoing queue with a > 64 KiB frame in flight when the batch is rejected.",
+    "C14": " Also: params that already carry a progress token, the token found on the wire, and one token shared by a second request.",
+    "C15": " Also through MCPClient/connect_to_server over the Transport classes; > 100 notifications per session; event-before-202 on the SSE carrier; slow notification transit with a lifecycle-enforcing server; untyped SSE events behind data-less keep-alives.",
+    "C16": " Entry points include stdio_client_with_initialize; several conversations over one StdioClient object.",
+    "C18": " Runs on raw streams and on the pair returned by stdio_client() over a FakeProcess; ids include int/digit-string twins and falsy ids.",
+    "C19": " Initialize is also sent with unsupported/malformed versions and with a session id.",
+    "C20": " Also: repeat loads of one unchanged file, unknown names at any position, the default inherited environment compared with the host environment, which changes between launches.",
+}
+
+
 def main():
     checks = []
     for pid, c in CHECKS.items():
+        c = dict(c, text=c["text"] + EXTRA.get(pid, ""))
         if not os.path.exists(os.path.join(VERIF, "props", pid.lower() + ".py")):
             continue
         checks.append({
